@@ -424,6 +424,31 @@ def sort_check(ctx):
             if [refkey(d) for d in got] != sorted(refkey(d) for d in perm):
                 rec.violation("C12:sort:documented-keys-out-of-order-with-mixed-columns", columns=[repr(c) for c in combo])
                 return
+    # labels that differ only in letter case are different labels: the issues of one file / column / key stay together
+    # (which of the two spellings comes first is not asked), rows ascending inside
+    def contiguous(seq):
+        seen, last = set(), object()
+        for x in seq:
+            if x != last:
+                if x in seen:
+                    return False
+                seen.add(x)
+                last = x
+        return True
+    for fa, fb in (("Sub-01.tsv", "sub-01.tsv"), ("a.tsv", "a.tsv")):
+        for ca, cb in (("Cue", "cue"), ("cue", "CUE"), ("c1", "c1")):
+            if fa == fb and ca == cb:
+                continue
+            base = [mk(i, f, c, k, r) for i, (f, c, k, r) in enumerate(
+                [(fa, ca, "go", 2), (fb, cb, "go", 2), (fa, ca, "stop", 3), (fb, cb, "stop", 3), (fa, ca, "go", 4)])]
+            for perm in itertools.permutations(base):
+                n += 1
+                got = [refkey(d) for d in sort_issues(list(perm))]
+                ok = all(contiguous([g[:lvl] for g in got]) for lvl in (1, 2, 3))
+                ok = ok and all(a[3] <= b[3] for a, b in zip(got, got[1:]) if a[:3] == b[:3])
+                if not ok:
+                    rec.violation("C12:sort:labels-differing-in-letter-case-interleave", files=[fa, fb], columns=[ca, cb], got=got)
+                    return
     rec.n("evaluations", n)
     rec.n("transitions", n)
     rec.outcome("sort-ok")
